@@ -349,6 +349,50 @@ func init() {
 		}
 		return nm
 	})
+	// ---- bart.Lite: a prefix set is modelled by the list of prefixes inserted into it; Contains is
+	// the disjunction of the real netip.Prefix.Contains over that list (bart itself is outside the claim)
+	bartList := func(ex *Exec, v Value) *[]Value {
+		p := v.(*Ptr)
+		ex.nilCheck(p)
+		k := "bart:" + ptrKey(p) // &lite and &lite.liteTable (field 0) name the same set
+		for strings.HasSuffix(k, "/0") {
+			k = strings.TrimSuffix(k, "/0")
+		}
+		l, ok := ex.ghost[k].(*[]Value)
+		if !ok {
+			l = &[]Value{}
+			ex.ghost[k] = l
+		}
+		return l
+	}
+	regStub("(*github.com/gaissmai/bart.Lite).Insert", func(ex *Exec, fn *ssa.Function, args []Value) Value {
+		l := bartList(ex, args[0])
+		*l = append(*l, copyValue(args[1]))
+		return nil
+	})
+	regStub("(*github.com/gaissmai/bart.Lite).Union", func(ex *Exec, fn *ssa.Function, args []Value) Value {
+		l := bartList(ex, args[0])
+		o := bartList(ex, args[1])
+		*l = append(*l, *o...)
+		return nil
+	})
+	regStub("(*github.com/gaissmai/bart.Lite).Contains", func(ex *Exec, fn *ssa.Function, args []Value) Value {
+		l := bartList(ex, args[0])
+		pt := ex.namedType("net/netip", "Prefix")
+		contains := ex.prog.LookupMethod(pt, nil, "Contains")
+		if contains == nil {
+			panic(unsupported("netip.Prefix.Contains not found"))
+		}
+		res := TFalse
+		for _, pfx := range *l {
+			r := ex.callFunction(contains, []Value{copyValue(pfx), copyValue(args[1])}, nil, nil).(*Term)
+			res = OrB(res, r)
+		}
+		return res
+	})
+	for _, m := range []string{"Insert", "Union", "Contains"} {
+		exactStubs["(*github.com/gaissmai/bart.liteTable[V])."+m] = exactStubs["(*github.com/gaissmai/bart.Lite)."+m]
+	}
 	regStub("strings.Clone", func(ex *Exec, fn *ssa.Function, args []Value) Value { return args[0] })
 	regStub("runtime.KeepAlive", noop)
 	regStub("runtime.Gosched", func(ex *Exec, fn *ssa.Function, args []Value) Value { ex.sched.point(); return nil })
